@@ -177,7 +177,7 @@ func c09Replay(args []string) int {
 					got = append(got, strings.TrimPrefix(f, "vcl_"))
 				}
 			}
-			if !eqS(got, p.Path) || !eqS(b.Sim.Logs, p.Logs) || b.Sim.Crash != "" {
+			if len(p.Path) > 0 && (!eqS(got, p.Path) || !eqS(b.Sim.Logs, p.Logs) || b.Sim.Crash != "") {
 				res.Drift = append(res.Drift, map[string]any{"obs": "prediction", "path": got, "want_path": p.Path, "logs": b.Sim.Logs,
 					"want_logs": p.Logs, "error": b.Sim.Error, "crash": b.Sim.Crash})
 			}
